@@ -1440,6 +1440,10 @@ Library read_oas(const char* filename, double unit, double tolerance, ErrorCode*
     PropertyValue* modal_property_value_list = NULL;
 
     Property** next_property = &library.properties;
+    // Properties that follow a record we skip (LAYERNAME, XNAME, XELEMENT, XGEOMETRY) belong to
+    // that record, not to the element before it: they are collected here and discarded.
+    Property* ignored_properties = NULL;
+    bool names_resolved = false;
 
     Array<Property*> unfinished_property_name = {};
     Array<PropertyValue*> unfinished_property_value = {};
@@ -1607,6 +1611,7 @@ Library read_oas(const char* filename, double unit, double tolerance, ErrorCode*
                     property_value->bytes = (uint8_t*)allocate(prop_string->count);
                     memcpy(property_value->bytes, prop_string->bytes, prop_string->count);
                 }
+                names_resolved = true;
                 goto CLEANUP;
             } break;
             case OasisRecord::CELLNAME_IMPLICIT: {
@@ -1684,6 +1689,8 @@ Library read_oas(const char* filename, double unit, double tolerance, ErrorCode*
             case OasisRecord::LAYERNAME_DATA:
             case OasisRecord::LAYERNAME_TEXT:
                 // Unused record
+                next_property = &ignored_properties;
+                while (*next_property) next_property = &(*next_property)->next;
                 free_allocation(oasis_read_string(in, false, len));
                 for (uint32_t i = 2; i > 0; i--) {
                     uint64_t type = oasis_read_unsigned_integer(in);
@@ -2419,12 +2426,16 @@ Library read_oas(const char* filename, double unit, double tolerance, ErrorCode*
                 }
             } break;
             case OasisRecord::XNAME_IMPLICIT: {
+                next_property = &ignored_properties;
+                while (*next_property) next_property = &(*next_property)->next;
                 oasis_read_unsigned_integer(in);
                 free_allocation(oasis_read_string(in, false, len));
                 if (error_logger) fputs("[GDSTK] Record type XNAME ignored.\n", error_logger);
                 if (error_code) *error_code = ErrorCode::UnsupportedRecord;
             } break;
             case OasisRecord::XNAME: {
+                next_property = &ignored_properties;
+                while (*next_property) next_property = &(*next_property)->next;
                 oasis_read_unsigned_integer(in);
                 free_allocation(oasis_read_string(in, false, len));
                 oasis_read_unsigned_integer(in);
@@ -2432,12 +2443,16 @@ Library read_oas(const char* filename, double unit, double tolerance, ErrorCode*
                 if (error_code) *error_code = ErrorCode::UnsupportedRecord;
             } break;
             case OasisRecord::XELEMENT: {
+                next_property = &ignored_properties;
+                while (*next_property) next_property = &(*next_property)->next;
                 oasis_read_unsigned_integer(in);
                 free_allocation(oasis_read_string(in, false, len));
                 if (error_logger) fputs("[GDSTK] Record type XELEMENT ignored.\n", error_logger);
                 if (error_code) *error_code = ErrorCode::UnsupportedRecord;
             } break;
             case OasisRecord::XGEOMETRY: {
+                next_property = &ignored_properties;
+                while (*next_property) next_property = &(*next_property)->next;
                 uint8_t info;
                 oasis_read(&info, 1, 1, in);
                 oasis_read_unsigned_integer(in);
@@ -2562,6 +2577,8 @@ CLEANUP:
 
     unfinished_property_name.clear();
     unfinished_property_value.clear();
+    // Without END, names and values may still hold reference numbers instead of pointers
+    if (names_resolved) properties_clear(ignored_properties);
 
     return library;
 }
